@@ -42,6 +42,30 @@ CLAIMS = {
   design_ref="DESIGN.md 3 (C20)",
   note="Trusted: gocv, go/types, SMT solvers, modelled stdlib (slices/maps); exported functions not under contract are listed as unverified in the evidence, never counted.",
   technique=TECH),
+ "C03": dict(
+  category="other",
+  text="Contracts on the real transition executor and entry points. Transition.emitEvents is verified (every path, handlers and tracers abstracted by frame contracts) against: the clocks and the active list are assigned only through setActiveStates/recoverFinalPhase (ghost counter 'applied'; frame clause); a Canceled result of a non-auto mutation without a handler fault on a live machine implies the target was never applied (canceled_noop); a check mutation (CanAdd/CanRemove) never applies and never prepends an auto mutation (check_pure); the target is applied at most once (single_apply). setActiveStates (C01) makes the application one step under the write lock. Entry points Add/Remove/Set/CanAdd/CanRemove are verified to return Canceled with no effect when the machine is disposing, backing off or (Exception aside) over the queue limit. statesToSet/setupAccepted/setupExitEnter carry the per-muta",
+  design_ref="DESIGN.md 3 (C03)",
+  note="Trusted: gocv, go/types, SMT solvers; unverified remainder: Machine.handle (handler dispatch), PrependMut, processQueue, queueMutation, recoverFinalPhase are trusted frame contracts here; TxInv (what newTransition establishes) is a precondition of emitEvents; CanAdd/CanRemove predicting the real mutation's result; Backoff() is time-based: modelled as a pure function sampled once",
+  technique=TECH),
+ "C05": dict(
+  category="other",
+  text="Lifecycle order as call-site obligations inside the verified Transition.emitEvents: each negotiation emitter and the final-handler emitter carry a ghost phase precondition (Exit <= Enter <= Self <= StateState < apply < finals), so any reordering, a final handler before the target is applied, or a negotiation handler after it fails a named precondition; final handlers and TransitionFinals tracers are called only with TimeAfter equal to the machine's real time; a negotiation Canceled result prevents application (C03 canceled_noop); setupExitEnter is proved to compute Exits = before minus target and Enters = target minus before plus directly called Multi states. 'other' because the per-binding dispatch (processHandlers), the After/Require ordering of SortStates (sort.SliceStable is modelled as an arbitrary permutation) and exactly-once-per-binding are not under contract.",
+  design_ref="DESIGN.md 3 (C05)",
+  note="Trusted: gocv, go/types, SMT solvers; unverified remainder: processHandlers / handler goroutine protocol; After/Require ordering inside Exits and Enters (known design-time finding: the After comparator is not a strict weak order) - not decided; negotiation emitters' internals (partial auto acceptance) are trusted frame contracts",
+  technique=TECH),
+ "C07": dict(
+  category="other",
+  text="DefaultRelationsResolver.NewAutoMutation is proved to call exactly the inactive Auto states that no active state Removes, each once, in state-name order (nil iff there are none; an Add mutation flagged auto with no queue tick). The verified Transition.emitEvents proves: an auto or check mutation never prepends an auto mutation (auto_once), at most one is prepended (auto_atmost1), and a transition that changed nothing prepends none (nochange_noauto). setupAccepted is proved to accept an auto transition iff at least one called state survives in the target. 'other' because 'the very next transition' depends on PrependMut/processQueue (trusted here) and the per-state partial acceptance inside the negotiation emitters is not under contract.",
+  design_ref="DESIGN.md 3 (C07)",
+  note='Trusted: gocv, go/types, SMT solvers; unverified remainder: negotiation emitters (partial auto acceptance branches) are trusted frame contracts; PrependMut / processQueue ordering (C04); concurrent PrependMut callers',
+  technique=TECH),
+ "C14": dict(
+  category="other",
+  text="Inside the verified Transition.emitEvents the tracer callbacks are interface contracts with ghost counters: TransitionStart is called only before any Finals/End, TransitionFinals only after the target is applied and with TimeAfter equal to the machine's time, TransitionEnd with TimeAfter equal to the machine's time on fault-free paths (including canceled and check transitions, whose TimeAfter must equal the unchanged clock); any reordering of these or of the TimeAfter assignment fails a named call-site precondition. 'other' because newTransition (TransitionInit, TimeBefore), the before/after chaining across transitions and exactly-once-per-tracer counting are not under contract.",
+  design_ref="DESIGN.md 3 (C14)",
+  note='Trusted: gocv, go/types, SMT solvers; unverified remainder: newTransition / processQueue (TransitionInit, chaining of TimeBefore to the previous TimeAfter); telemetry and history consumers copying the times; tracer list changing during a transition',
+  technique=TECH),
  "C10": dict(
   category="proof",
   text="Every obligation generated from the current source of the RPC clock codec (encoder genDeepUpdate/genShallowUpdate/calcUpdate, decoder Client.clockFromUpdate, Checksum) against functional contracts is discharged by an SMT solver for all state counts, tracked subsets and tick values (unbounded, wrap-exact unsigned arithmetic); the round-trip and checksum clauses are lemmas over those contracts. Proof level is right here because the property is pure integer/array code with no schedule dimension.",
